@@ -36,11 +36,16 @@ def draw_params(rng, algo):
     return dict(dt=dt, alpha=alpha, beta=beta, gamma=gamma)
 
 
+_AS_STRING = [0]
+
+
 def set_algo(simu, algo, p):
     if algo == "parabolic":
         simu.Solver_Set_Parabolic_Algorithm(p["dt"], p["alpha"])
     else:
-        simu.Solver_Set_Hyperbolic_Algorithm(p["dt"], AlgoType(algo), p["beta"], p["gamma"], p["alpha"])
+        # AlgoType is a str-enum: the algorithm may be named by the enum member or by its plain string, alternately
+        _AS_STRING[0] += 1
+        simu.Solver_Set_Hyperbolic_Algorithm(p["dt"], AlgoType(algo) if (_AS_STRING[0] % 2 and not (algo == "hht_newmark" and _AS_STRING[0] % 4 == 1)) else str(AlgoType(algo).value), p["beta"], p["gamma"], p["alpha"])
 
 
 def effective(algo, p):
@@ -174,13 +179,30 @@ def main():
             lines.append(f"{algo} {what} {head} {body}")
             expect.append((algo, what, dict(p), real))
 
+    # ---------------- the algorithm named by the enum member or by its string: same scheme ----------------
+    simq, _, _, _ = build_elastic(rng)
+    for algo in HYPER:
+        pq = dict(dt=0.125, beta=0.3025, gamma=0.6, alpha=0.2 if algo != "midpoint" else 0.5)
+        coefs = {}
+        for form in ("enum", "string"):
+            simq.Solver_Set_Hyperbolic_Algorithm(pq["dt"], AlgoType(algo) if form == "enum" else str(AlgoType(algo).value), pq["beta"], pq["gamma"], pq["alpha"])
+            try:
+                coefs[form] = tuple(float(c) for c in simq._Solver_Get_K_C_M_coefs_for_time_scheme())
+            except Exception as ex:  # noqa: BLE001
+                coefs[form] = f"raises {type(ex).__name__}"
+        res.case(("algo-name-form", algo))
+        if coefs["enum"] != coefs["string"]:
+            res.fail(f"algo={algo} named by its string", f"weights of K, C, M with AlgoType.{algo}: {coefs['enum']}; with the string '{algo}': {coefs['string']}", dict(algo=algo, params=pq))
+
     for seq in range(nseq):
         parabolic = (seq % 3 == 2)
         simu, mesh, left, right = build_thermal(rng) if parabolic else build_elastic(rng)
         pt = simu.problemType
         undamped = (not parabolic) and (seq % 3 == 1)
+        cMK = (0.0, 0.0)
         if not parabolic and not undamped:
-            simu.Set_Rayleigh_Damping_Coefs(rng.choice([0.0, 0.25, 0.5]), rng.choice([0.125, 0.25]))
+            cMK = (rng.choice([0.0, 0.25, 0.5]), rng.choice([0.125, 0.25]))
+            simu.Set_Rayleigh_Damping_Coefs(*cMK)
         K, C, Mm, F = simu.Get_K_C_M_F(pt)
         n = K.shape[0]
         # arbitrary (non-equilibrium) prior state, dyadic numbers
@@ -214,6 +236,16 @@ def main():
         history = []
         algos = ["parabolic"] if parabolic else (["newmark", "midpoint", "euler_implicit"] if undamped else HYPER)
         for step in range(nsteps):
+            if not parabolic and not undamped and step == nsteps // 2:
+                # the damping is changed between two steps (switched off every other sequence): the next steps use the new C
+                cMK = (0.0, 0.0) if seq % 2 == 0 else (rng.choice([0.0, 0.125]), rng.choice([0.0, 0.0625]))
+                simu.Set_Rayleigh_Damping_Coefs(*cMK)
+                Cnew = simu.Get_K_C_M_F(pt)[1].toarray()
+                res.case((seq, step, "rayleigh-change"))
+                if np.abs(Cnew - (cMK[0] * Md + cMK[1] * Kd)).max() > 1e-10 * (1 + np.abs(Kd).max()):
+                    res.fail("damping matrix after Set_Rayleigh_Damping_Coefs", f"after Set_Rayleigh_Damping_Coefs{cMK} between two steps, C differs from coefM M + coefK K by {np.abs(Cnew - (cMK[0] * Md + cMK[1] * Kd)).max():.3e}",
+                             dict(sequence=seq, step=step, coefs=list(cMK)))
+                Cd = cMK[0] * Md + cMK[1] * Kd
             algo = rng.choice(algos)
             p = draw_params(rng, algo)
             if undamped and algo == "newmark":
